@@ -75,7 +75,7 @@ func (h *halfPipe) read(p []byte) (int, error) {
 func (h *halfPipe) idle() bool {
 	h.mu.Lock()
 	defer h.mu.Unlock()
-	return h.waiting && len(h.buf) == 0
+	return h.waiting && len(h.buf) == 0 && !h.closed
 }
 
 func (h *halfPipe) close() {
